@@ -67,8 +67,6 @@ class Ctx:
         self.findings = [f for f in load_findings() if f.get("property") == prop]
         self.replay_dir = tlc.workdir() / "replays"
         self.replay_dir.mkdir(parents=True, exist_ok=True)
-        for old in self.replay_dir.glob(f"{prop}-*.json"):
-            old.unlink()
         self.notes: dict = {}
 
     # ---- accumulation
@@ -154,12 +152,13 @@ class Ctx:
         for v in self.violations:
             hit = None
             for f in self.findings:
-                if f.get("status") == "known" and f.get("signature") == v["signature"] \
+                if f.get("status") == "known" and (f.get("signature") == v["signature"]
+                                                   or v["signature"] in f.get("signatures", [])) \
                         and _match(f.get("match", {}), v["info"]):
                     hit = f
                     break
             if hit is not None:
-                self.known_hits.setdefault(hit["signature"], [hit, 0])[1] += 1
+                self.known_hits.setdefault(hit.get("signature") or hit["signatures"][0], [hit, 0])[1] += 1
             else:
                 new.append(v)
         for sig, (f, n) in self.known_hits.items():
@@ -242,6 +241,8 @@ def main(argv=None) -> int:
     try:
         if args.replay:
             return mod.replay(ctx, json.loads(Path(args.replay).read_text()))
+        for old in ctx.replay_dir.glob(f"{args.prop}-*.json"):
+            old.unlink()
         mod.run(ctx)
         return ctx.finish()
     except MachineryError as exc:
